@@ -39,6 +39,7 @@ type C08Case struct {
 	RelK     int    `json:"rel_k"`
 	RelPerm  []int  `json:"rel_perm"`
 	RelCpus  int    `json:"rel_cpus"`
+	RunFirst bool   `json:"run_first,omitempty"` // the run under test comes before the one-worker reference (a process that has computed nothing yet starts with several workers)
 	RelPol   int    `json:"rel_policy"`
 	Choices  []int  `json:"choices"`
 	RelCh    []int  `json:"rel_choices"`
@@ -236,6 +237,7 @@ func (c08) Gen(rs uint64, tier string, race bool) interface{} {
 		c.RelCpus = r.Pick(1, 2, 3, 4, 8)
 		c.RelPol = r.Pick(PolUniform, PolSticky, PolPCT, PolStarve)
 	}
+	c.RunFirst = r.Bool()
 	return c
 }
 
@@ -438,15 +440,21 @@ func (c08) Run(ctx *Ctx, ci interface{}) (o Outcome) {
 	budget := 400*(npairs+c.Cpus+n) + 20000
 	faulty := len(c.FailDist)+len(c.FailSeq) > 0
 
-	// reference: one worker, FIFO schedule, no fault
+	// reference: one worker, FIFO schedule, no fault; the run under test before or after it
+	cfg := SchedCfg{Seed: c.Seed, Policy: c.Policy, Choices: c.Choices, Strict: ctx.Strict, MaxSteps: budget}
+	var run distRun
+	if c.RunFirst {
+		run, _ = c.runDist(ctx, c.Rows, c.Weights, c.Cpus, cfg, c.FailDist, c.FailSeq)
+		o.Add("run_under_test_before_reference", 1)
+	}
 	ref, herr := c.runDist(ctx, c.Rows, c.Weights, 1, SchedCfg{Seed: 1, Policy: PolFIFO, MaxSteps: budget}, nil, nil)
 	if herr != nil {
 		o.Add("harness_skip", 1)
 		return
 	}
-	// the run under test
-	cfg := SchedCfg{Seed: c.Seed, Policy: c.Policy, Choices: c.Choices, Strict: ctx.Strict, MaxSteps: budget}
-	run, _ := c.runDist(ctx, c.Rows, c.Weights, c.Cpus, cfg, c.FailDist, c.FailSeq)
+	if !c.RunFirst {
+		run, _ = c.runDist(ctx, c.Rows, c.Weights, c.Cpus, cfg, c.FailDist, c.FailSeq)
+	}
 	if run.sr.Diverged != "" {
 		ctx.Diverged = run.sr.Diverged
 		return
